@@ -123,7 +123,7 @@ pub fn pool(_mode: &TransportMode) -> Vec<DescSpec> {
         /* 11 */ { let mut d = DescSpec::new(vec![a0.clone(), v1.clone()]); d.session_version = 3; d.sections[1].dir = "inactive"; d.sections[0].codecs = vec![pcmu()]; d },
         /* 12 */ DescSpec::new(vec![application(Some("0"))]),
         /* 13 */ DescSpec::new(vec![]),
-        /* 14 */ { let mut a = a0.clone(); a.mid = Some("65535".into()); let mut b = audio(Some("65534"), vec![pcmu()]); b.dir = "recvonly";
+        /* 14 */ { let mut a = a0.clone(); a.mid = Some("65535".into()); let mut b = audio(Some("3"), vec![pcmu()]); b.dir = "recvonly";
                    let mut d = DescSpec::new(vec![a, b]); d.bundle = false; d },
     ]
 }
